@@ -24,7 +24,7 @@ def rmsg(rng):
     if r < 0.70:
         return hs(), "handshake"
     if r < 0.82:   # unknown id with a body
-        return wmsg(rng.choice([9, 10, 20, 83, 85, 255]), bytes(rng.randrange(256) for _ in range(rng.choice([0, 1, 2, 7])))), "unknown"
+        return wmsg(rng.choice([9, 10, 20, 83, 84, 84, 85, 255]), bytes(rng.randrange(256) for _ in range(rng.choice([0, 1, 2, 7])))), "unknown"
     if r < 0.92:   # wrong length prefix on a fixed-size / minimum-size message
         mid = rng.choice([0, 1, 2, 3, 4, 6, 7, 8])
         ln = rng.choice([2, 3, 6, 12, 14, 8])
@@ -72,7 +72,7 @@ class C06:
     coq_timeout = 1200
     model_targets = ["Pack.vo", "Corr/C06.vo"]
     proof_target = "Props/C06.vo"
-    theorems = ["C06_total", "C06_bounded", "C06_progress", "C06_error_terminates", "C06_segmentation", "C06_any_two_cuts_agree", "C06_meaning_exists", "C06_exec_segmentation"]
+    theorems = ["C06_total", "C06_bounded", "C06_progress", "C06_error_terminates", "C06_segmentation", "C06_any_two_cuts_agree", "C06_meaning_exists", "C06_exec_segmentation", "C06_unknown_id_skipped"]
     allowed_axioms = []
     coq_header = "From Rdest Require Import Base Consts Wire Conn Corr.C06.\nOpen Scope N_scope.\n"
     corr_name = "Connection::recv_frame / parse_frame vs Conn.v"
